@@ -15,6 +15,9 @@ pub enum Case {
     Write { prog: Program, sched: Sched },
     /// archive read and repaired through a throttled source; `cut` = fraction (per mille) kept for the repair comparison
     Read { prog: Program, sched: Sched, cut_permille: u32 },
+    /// same, the source cutting its reads `back` .. 0 bytes before the end of every compressed block
+    /// (where the decoder may already have delivered the whole block)
+    ReadAtBlockEnds { prog: Program, back: u32 },
 }
 
 pub fn scheds(rng: &mut Rng, writer: bool) -> Vec<Sched> {
@@ -70,6 +73,24 @@ pub fn cases(ctx: &Ctx) -> Vec<Case> {
             v.push(Case::Read { prog: single_file(layers, 5, sz, data, ctx.seed ^ 0x13), sched, cut_permille: 1000 });
         }
     }
+    // short reads ending just before the end of full compressed blocks (incompressible content: the
+    // block's last byte then only carries the end-of-stream bits)
+    if k.is_prod() {
+        for (i, layers) in [2u8, 3].into_iter().enumerate() {
+            let two = Program {
+                layers,
+                level: 1,
+                nrecip: 1,
+                files: vec![FileSpec { name: NameKind::Plain(0), data: DataKind::Random }, FileSpec { name: NameKind::Plain(1), data: DataKind::Text }],
+                ops: vec![Op::Add(0, Sz::new(2, 0, 300)), Op::Add(1, Sz::lit(3000)), Op::Finalize],
+                seed: ctx.seed ^ 0xB10C ^ i as u64,
+            };
+            v.push(Case::ReadAtBlockEnds { prog: two.clone(), back: 1 });
+            if !ctx.quick() {
+                v.push(Case::ReadAtBlockEnds { prog: two, back: 64 });
+            }
+        }
+    }
     v
 }
 
@@ -103,6 +124,34 @@ pub fn run_case(ctx: &mut Ctx, c: &Case) {
                 Ok(Err((cls, msg))) => ctx.violation("C13", &format!("{cls}:{sk}:layers{}", p.layers), scen(p), json!({"message": msg})),
                 Err((loc, msg)) => ctx.violation("C13", &format!("write-panic:{loc}:{sk}"), scen(p), json!({"panic": msg})),
             }
+        }
+        Case::ReadAtBlockEnds { prog: p, back } => {
+            let Ok(Ok(b)) = guarded(|| drv::build(p, &k, Sched::All)) else {
+                ctx.count("build_failed");
+                return;
+            };
+            let Ok(d) = model::fmt::decode_archive(&k, &b.raw, &b.sks) else {
+                ctx.count("build_failed");
+                return;
+            };
+            let Some(comp) = &d.comp else { return };
+            let body = &b.raw[d.header.len..];
+            let plain_of_enc: &[u8] = d.enc_plain.as_deref().unwrap_or(body);
+            let mut offs = Vec::new();
+            for (i, sz) in comp.sizes.iter().enumerate() {
+                let (start, end) = (comp.offsets[i], comp.offsets[i] + *sz as usize);
+                if i + 1 < comp.sizes.len() && model::fmt::brotli_decompress_prefix(&plain_of_enc[start..end - 1]).len() as u64 == k.block {
+                    ctx.count("musthit:full_block_whose_last_byte_is_not_needed");
+                }
+                for dlt in 0..=u64::from(*back) {
+                    let cpos = end as u64 - dlt;
+                    // position in the file: under encryption every chunk is followed by its tag
+                    let fpos = if p.layers & 1 != 0 { cpos / k.chunk * k.chunk_tag() + cpos % k.chunk } else { cpos };
+                    offs.push(d.header.len as u64 + fpos);
+                }
+            }
+            offs.sort_unstable();
+            run_case(ctx, &Case::Read { prog: p.clone(), sched: Sched::StopAt(offs), cut_permille: 1000 });
         }
         Case::Read { prog: p, sched, cut_permille } => {
             ctx.eval(p.fingerprint() ^ model::prng::fnv(format!("r{sched:?}{cut_permille}").as_bytes()), true);
@@ -196,6 +245,10 @@ pub fn replay(ctx: &mut Ctx, scenario: &Value) -> Result<(), String> {
             let s = sched.clone();
             let cp = *cut_permille;
             (prog, Box::new(move |p| Case::Read { prog: p, sched: s.clone(), cut_permille: cp }))
+        }
+        Case::ReadAtBlockEnds { prog, back } => {
+            let bk = *back;
+            (prog, Box::new(move |p| Case::ReadAtBlockEnds { prog: p, back: bk }))
         }
     };
     for v in xlate::variants(prog, &facts, &from, &ctx.k).into_iter().take(4) {
